@@ -131,6 +131,7 @@ type State struct {
 	Phase   int     // 1,2,3 while running; 4 after End
 	Q       [][]Msg // index (recv*N+sender)*2+chan
 	Held    []Msg   // "late" messages released at the start of the next phase
+	HeldLast []Msg  // "late...last" messages: released at the start of the next phase AFTER that phase's injections (the sender chooses the order of its own broadcasts)
 	HeldHonest []Msg // reactive honest broadcasts that land in the next round (Cfg.Net)
 	// Reactive records (for the caller) which kinds of honest reactive broadcasts occurred so far:
 	// bit 0 an answer in round 1 or 2, bit 1 a complaint in round 1. Not part of the canonical state.
@@ -173,6 +174,7 @@ func (s *State) shallow() *State {
 	n.Shadows = append([]*Node(nil), s.Shadows...)
 	n.Q = append([][]Msg(nil), s.Q...)
 	n.Held = append([]Msg(nil), s.Held...)
+	n.HeldLast = append([]Msg(nil), s.HeldLast...)
 	n.HeldHonest = append([]Msg(nil), s.HeldHonest...)
 	return &n
 }
@@ -213,6 +215,9 @@ func (s *State) Hash() [32]byte {
 	held := make([]string, 0, len(s.Held))
 	for _, m := range s.Held {
 		held = append(held, fmt.Sprintf("%d>%d:%x", m.From, m.To, m.Data))
+	}
+	for _, m := range s.HeldLast {
+		held = append(held, fmt.Sprintf("last:%d>%d:%x", m.From, m.To, m.Data))
 	}
 	// held keeps per-sender order; senders are scripted, so the list order is deterministic
 	for _, x := range held {
@@ -591,15 +596,21 @@ func (s *State) Apply(t Trans) (*State, []Event) {
 		for _, m := range hh {
 			n.send(m, &evs)
 		}
+		// what was held back during the phase that just ended is due now; what Z holds back while reacting
+		// to the messages of THIS barrier (a complaint sent at the timeout reaches Z's shadow at once, its
+		// answer is emitted inside this transition) stays held until the next barrier
+		held, last := n.Held, n.HeldLast
+		n.Held, n.HeldLast = nil, nil
 		for i := 0; i < n.Cfg.N; i++ {
 			n.routeOut(i, outs[i], &evs)
 		}
-		held := n.Held
-		n.Held = nil
 		for _, m := range held {
 			n.send(m, &evs)
 		}
 		n.inject(n.Phase, &evs)
+		for _, m := range last {
+			n.send(m, &evs)
+		}
 		return n, evs
 	}
 	// End
@@ -732,6 +743,9 @@ func (s *State) deviate(z int, m Msg) (now, later []Msg) {
 			return []Msg{mk(body)}, nil
 		case "latewrong":
 			return nil, []Msg{mk(MutateScalar(body, 2, "wrong"))}
+		case "latewronglast": // the same, but behind whatever Z injects at the start of the next phase
+			s.HeldLast = append(s.HeldLast, mk(MutateScalar(body, 2, "wrong")))
+			return nil, nil
 		case "dupwrong":
 			return []Msg{m, mk(MutateScalar(body, 2, "wrong"))}, nil
 		case "wrongthenright":
@@ -901,7 +915,7 @@ func Grammar(cfg *Config) []Deviation {
 					"empty>wrong", "wrongtag>wrong", "zero>wrong", "wrong>honest", "empty>honest", "empty>>wrong", "wrong>>honest"} {
 					g = append(g, Deviation{z, fmt.Sprintf("share:%d", r), v})
 				}
-				for _, v := range []string{"omit", "late", "dup", "short", "long", "zero", "ger", "wrong", "badcomplainer", "othercomplainer", "latewrong", "dupwrong", "wrongthenright"} {
+				for _, v := range []string{"omit", "late", "dup", "short", "long", "zero", "ger", "wrong", "badcomplainer", "othercomplainer", "latewrong", "latewronglast", "dupwrong", "wrongthenright"} {
 					g = append(g, Deviation{z, fmt.Sprintf("ans:%d", r), v})
 				}
 				for k := 0; k <= 3; k++ {
